@@ -89,11 +89,11 @@ theorem goto_lt (d : DFA Trans) (h : targetsOK d = true) (s c t : Nat)
 /-- The `goto` closure of `scanPlain`. -/
 def gotoK (cfg : Config σ τ ε) (ns : Nat → Option Nat) (rest : List Nat) (st : LState σ) (t : Nat) :
     Outcome σ :=
-  if inlinedAt cfg.dfa t then scanPlain cfg ns t rest st
+  if inlinedAt cfg.inl t then scanPlain cfg ns t rest st
   else
-    match ns (renumber (inlinedStates cfg.dfa) t) with
-    | some t' => scanPlain cfg ns t' rest { st with state := renumber (inlinedStates cfg.dfa) t }
-    | none => .goto { st with state := renumber (inlinedStates cfg.dfa) t }
+    match ns (renumber cfg.inl t) with
+    | some t' => scanPlain cfg ns t' rest { st with state := renumber cfg.inl t }
+    | none => .goto { st with state := renumber cfg.inl t }
 
 /-- lexer state after `set_accepting_state` and `next()` returning `c` -/
 def stepSt (cfg : Config σ τ ε) (s : Nat) (c : Nat) (rest : List Nat) (st : LState σ) : LState σ :=
@@ -119,7 +119,7 @@ theorem scanPlain_nil (cfg : Config σ τ ε) (ns : Nat → Option Nat) (s : Nat
       match (cfg.dfa.st s).eoi with
       | some (.accept accs) =>
         testRightCtxs cfg accs (endSt cfg s st) (fun _ => if s = 0 then .fin (endSt cfg s st) else failPlain (endSt cfg s st))
-      | some (.goto t) => .goto { endSt cfg s st with state := renumber (inlinedStates cfg.dfa) t }
+      | some (.goto t) => .goto { endSt cfg s st with state := renumber cfg.inl t }
       | none => if s = 0 then .fin (endSt cfg s st) else failPlain (endSt cfg s st) := by
   rfl
 
@@ -346,16 +346,16 @@ theorem endSt_fields (cfg : Config σ τ ε) (s : Nat) (st : LState σ) (hit : s
 /-- Whether or not the target is inlined, a `goto` continues with the target's code; only the
 stored state number differs. -/
 theorem gotoK_eq (cfg : Config σ τ ε) (ns : Nat → Option Nat)
-    (htargets : targetsOK cfg.dfa = true) (hns : DispatchOK cfg.dfa ns) (s c t : Nat)
+    (htargets : targetsOK cfg.dfa = true) (hns : DispatchOK cfg.dfa cfg.inl ns) (s c t : Nat)
     (ht : lookupTrans (cfg.dfa.st s) c = some (.goto t)) (rest : List Nat) (st : LState σ) :
     ∃ n, gotoK cfg ns rest st t = scanPlain cfg ns t rest { st with state := n } := by
   unfold gotoK
-  cases hin : inlinedAt cfg.dfa t with
+  cases hin : inlinedAt cfg.inl t with
   | true => exact ⟨st.state, by simp⟩
   | false =>
     have := hns t (goto_lt _ htargets _ _ _ ht) hin
     simp only [this]
-    exact ⟨renumber (inlinedStates cfg.dfa) t, by simp⟩
+    exact ⟨renumber cfg.inl t, by simp⟩
 
 /-! ## The scan returns the greatest match, or falls back to the saved one -/
 
@@ -567,7 +567,7 @@ theorem candLe_succ {k' k : Nat} {e' e : Bool} (h : candLe k' e' k e) : candLe (
   · exact Or.inr ⟨by omega, h2⟩
 
 theorem scanPlain_act_gen (cfg : Config σ τ ε) (ns : Nat → Option Nat)
-    (htargets : targetsOK cfg.dfa = true) (hns : DispatchOK cfg.dfa ns) (a : Nat) (st' : LState σ) :
+    (htargets : targetsOK cfg.dfa = true) (hns : DispatchOK cfg.dfa cfg.inl ns) (a : Nat) (st' : LState σ) :
     ∀ (iter : List Nat) (s : Nat) (st : LState σ), st.iter = iter → st.done = false →
       scanPlain cfg ns s iter st = .act a st' → ActOK cfg s st a st' := by
   intro iter
@@ -634,7 +634,7 @@ theorem scanPlain_act_gen (cfg : Config σ τ ε) (ns : Nat → Option Nat)
           exact hno k a' e' ((cand_succ_goto cfg s c t rest k a' e' hlt).mp hc')
 
 theorem scanPlain_err_gen (cfg : Config σ τ ε) (ns : Nat → Option Nat)
-    (htargets : targetsOK cfg.dfa = true) (hns : DispatchOK cfg.dfa ns) (loc : Loc) (st' : LState σ) :
+    (htargets : targetsOK cfg.dfa = true) (hns : DispatchOK cfg.dfa cfg.inl ns) (loc : Loc) (st' : LState σ) :
     ∀ (iter : List Nat) (s : Nat) (st : LState σ), st.iter = iter →
       scanPlain cfg ns s iter st = .err loc st' → ErrOK cfg s st loc st' := by
   intro iter
@@ -678,7 +678,7 @@ theorem scanPlain_err_gen (cfg : Config σ τ ε) (ns : Nat → Option Nat)
 longer (and at full length an end-of-input match wins), and the lexer state is the start state
 advanced by exactly `k` characters. -/
 theorem scanPlain_act (cfg : Config σ τ ε) (ns : Nat → Option Nat)
-    (htargets : targetsOK cfg.dfa = true) (hns : DispatchOK cfg.dfa ns)
+    (htargets : targetsOK cfg.dfa = true) (hns : DispatchOK cfg.dfa cfg.inl ns)
     (s : Nat) (st : LState σ) (hlast : st.last = none) (hdone : st.done = false) (a : Nat) (st' : LState σ)
     (h : scanPlain cfg ns s st.iter st = .act a st') :
     ∃ k e, Cand cfg s st.iter k a e ∧
@@ -692,7 +692,7 @@ theorem scanPlain_act (cfg : Config σ τ ε) (ns : Nat → Option Nat)
 /-- When the scan reports an error, nothing matches; the error is located at the match start and
 the lexer is reset to state 0 with an empty match. -/
 theorem scanPlain_err (cfg : Config σ τ ε) (ns : Nat → Option Nat)
-    (htargets : targetsOK cfg.dfa = true) (hns : DispatchOK cfg.dfa ns)
+    (htargets : targetsOK cfg.dfa = true) (hns : DispatchOK cfg.dfa cfg.inl ns)
     (s : Nat) (st : LState σ) (hlast : st.last = none) (loc : Loc) (st' : LState σ)
     (h : scanPlain cfg ns s st.iter st = .err loc st') :
     (∀ k a e, ¬ Cand cfg s st.iter k a e) ∧ loc = st.curStart ∧
